@@ -4,15 +4,17 @@
    _prune_chunks, per axis with a non-trivial slice (start, stop) (already normalised by slice.indices):
 
         start_chunk = 0
-        while start_chunk < len(chunks) and chunks[start_chunk] <= start:
+        while start_chunk < len(chunks) - 1 and chunks[start_chunk] <= start:
             c = chunks[start_chunk]; offset += c; start -= c; stop -= c; shape -= c; start_chunk += 1
         stop_chunk = len(chunks)
-        while stop_chunk > start_chunk and chunks[stop_chunk - 1] <= shape - stop:
+        while stop_chunk > start_chunk + 1 and chunks[stop_chunk - 1] <= shape - stop:
             stop_chunk -= 1; c = chunks[stop_chunk]; shape -= c
         chunks = chunks[start_chunk:stop_chunk]
         if not chunks: chunks = (0,)
         index = slice(start, stop)
 
+   (the loop guards keep the last remaining chunk: fix of finding F20; before the fix they were
+   `start_chunk < len(chunks)` and `stop_chunk > start_chunk`.)
    The index-walking loops become structural recursion over the chunk list (front loop) and over the
    reversed remaining list (back loop): one step per loop iteration, at most len(chunks) steps each. *)
 From Coq Require Import ZArith List Bool.
@@ -22,9 +24,11 @@ Open Scope Z_scope.
 Definition zsum (l : list Z) : Z := fold_right Z.add 0 l.
 
 (* first while loop; returns (remaining chunks, start, stop, shape, offset) *)
+Definition more (t : list Z) : bool := match t with [] => false | _ => true end.   (* guard: not the last chunk left *)
+
 Fixpoint prune_front (cs : list Z) (start stop shape off : Z) : list Z * Z * Z * Z * Z :=
   match cs with
-  | c :: t => if c <=? start then prune_front t (start - c) (stop - c) (shape - c) (off + c)
+  | c :: t => if more t && (c <=? start) then prune_front t (start - c) (stop - c) (shape - c) (off + c)
               else (cs, start, stop, shape, off)
   | [] => ([], start, stop, shape, off)
   end.
@@ -32,7 +36,7 @@ Fixpoint prune_front (cs : list Z) (start stop shape off : Z) : list Z * Z * Z *
 (* second while loop, walking the reversed list; returns (remaining reversed chunks, shape) *)
 Fixpoint prune_back (rcs : list Z) (stop shape : Z) : list Z * Z :=
   match rcs with
-  | c :: t => if c <=? shape - stop then prune_back t stop (shape - c) else (rcs, shape)
+  | c :: t => if more t && (c <=? shape - stop) then prune_back t stop (shape - c) else (rcs, shape)
   | [] => ([], shape)
   end.
 
